@@ -7,8 +7,9 @@ from lib.vals import *
 
 THEOREMS = ["C05_same_type_is_mutual_assignability", "C05_same_type_answer", "C05_assignability_is_emptiness_of_difference",
             "C05_difference_is_set_difference", "C05_assignable_implies_inclusion", "C05_basic_types_assignability_is_inclusion",
+            "C05_list_types_assignable_implies_inclusion", "C05_list_only_types_assignable_implies_inclusion", "C05_lists_nonvacuous",
             "C05_nonvacuous"]
-IMPORTS = "From Beff Require Import Model.Cases."
+IMPORTS = "From Beff Require Import Model.Cases Model.ListEmpty."
 QUERIES = ["a_sub_b", "b_sub_a", "same", "a_empty", "b_empty"]
 STRUCT = ("Mapping", "List", "Map", "Set")
 
@@ -18,12 +19,16 @@ def has_allof(t):
 
 
 def refs_allof(t, env):
+    """an intersection with an object type among its members is reachable (the listed exact/open asymmetry is about those;
+    intersections of list types or basic types are judged like everything else)"""
     envd = dict(env)
+    sem = semref.Sem(env)
     seen, todo = set(), [t]
     while todo:
         x = todo.pop()
         for n in semref.nodes(x):
-            if n[0] == "AllOf": return True
+            if n[0] == "AllOf" and any(nd[0] == "Object" or (nd[0] == "Ref" and sem.as_object(nd) is not None)
+                                       for m in n[1] for nd in semref.nodes(m)): return True
             if n[0] == "Ref" and n[1] not in seen and n[1] in envd:
                 seen.add(n[1]); todo.append(envd[n[1]])
     return False
@@ -184,6 +189,34 @@ def check(run):
             exprs.append("show_res_bool (sem_is_subtype no_struct %s %s)" % (bdds.sem_coq(sa), bdds.sem_coq(sb)))
             exprs.append("show_res_bool (sem_is_same no_struct %s %s)" % (bdds.sem_coq(sa), bdds.sem_coq(sb)))
             emeta.append((i, o0["a_sub_b"], o0["same"]))
+    # the model of list emptiness (Model/ListEmpty.v: bdd_every_result, list_formula_is_empty, list_inhabited) on the pairs whose only
+    # structural components are lists, with the engine's own atom table; recursive tables run the model out of fuel and are skipped
+    lexprs, lmeta = [], []
+    def only_lists(sem):
+        return all(p[0] not in ("Mapping", "Map", "Set") for p in sem["data"])
+    for i, (env, a, b, how) in enumerate(cases):
+        r0 = res[2 * i]
+        if "ok" not in r0 or "err" in r0["ok"] or "lists" not in r0["ok"]: continue
+        o0 = r0["ok"]
+        sa, sb, lists = o0["sem_a"], o0["sem_b"], o0["lists"]
+        if not lists or any(d is None for _, d in lists): continue
+        if not any(p[0] == "List" for p in sa["data"] + sb["data"]): continue
+        if not (only_lists(sa) and only_lists(sb) and all(only_lists(t) for _, d in lists for t in d["prefix"] + [d["items"]])): continue
+        if not all(isinstance(o0[q], bool) for q in ("a_sub_b", "b_sub_a", "a_empty")): continue
+        tbl = "[" + "; ".join("(%d%%N, mkLatom %s %s)" % (k, coq_list(bdds.sem_coq(t) for t in d["prefix"]), bdds.sem_coq(d["items"]))
+                              for k, d in lists) + "]"
+        A, B = bdds.sem_coq(sa), bdds.sem_coq(sb)
+        lexprs.append('show_res_bool (sem_is_subtype_l %s no_struct 12 %s %s) +++ show_res_bool (sem_is_subtype_l %s no_struct 12 %s %s) '
+                      '+++ show_res_bool (sem_is_empty_l %s no_struct 12 %s)' % (tbl, A, B, tbl, B, A, tbl, A))
+        lmeta.append((i, "".join("t" if o0[q] else "f" for q in ("a_sub_b", "b_sub_a", "a_empty"))))
+    ldis, lskipped = [], 0
+    for (i, want), got in zip(lmeta, common.run_coq_cases(IMPORTS, lexprs, tag="C05lists", shard=40)):
+        if "!" in got:
+            lskipped += 1
+        elif got != want:
+            env, a, b, how = cases[i]
+            ldis.append(("list emptiness model vs the engine", {"named": env, "a": a, "b": b, "pair": how, "impl(a<=b,b<=a,a empty)": want, "model": got}))
+    disagree += ldis
     cq = common.run_coq_cases(IMPORTS, exprs, tag="C05")
     for k, (i, sub, same) in enumerate(emeta):
         tf = lambda x: "t" if x else "f"
@@ -200,7 +233,12 @@ def check(run):
                    "left type over a universe derived from both types (a value outside the right type refutes 'assignable'; an exhaustive "
                    "enumeration without such a value refutes 'not assignable'); non-trivial = min(#assignable, #not assignable) among judged")
     cov["correspondence"]["is_subtype / is_same_type of Model/Subtype.v vs the engine, on semtypes without structural components"] = {
-        "cases": len(emeta), "disagreements": len(disagree), "distribution": {"pairs": dict(hist)}}
+        "cases": len(emeta), "disagreements": len(disagree) - len(ldis), "distribution": {"pairs": dict(hist)}}
+    cov["correspondence"]["list_is_empty of Model/ListEmpty.v (bdd_every_result, list_formula_is_empty, list_inhabited) vs the engine, with "
+                          "the engine's own list atoms, on pairs whose structural components are lists only"] = {
+        "cases": 3 * (len(lmeta) - lskipped), "disagreements": len(ldis),
+        "distribution": {"pairs": len(lmeta), "pairs skipped (recursive list types: the model runs out of fuel)": lskipped,
+                         "pair kinds": dict(collections.Counter(cases[i][3].split(":")[0] for i, _ in lmeta))}}
     cov["spec_checks"]["decisions vs inclusion of value sets"] = {
         "pairs": len(cases), "directions_judged": agree[True] + agree[False], "assignable": agree[True], "not_assignable": agree[False],
         "unjudged (bounded enumeration not exhaustive, or conversion error)": unjudged,
